@@ -22,14 +22,14 @@ import (
 // before; an IPv4-mapped IPv6 address is the IPv4 address.
 
 var c05gAddrs = []string{
-	"81.2.69.160",         // GB in the MaxMind test databases
-	"89.160.20.128",       // SE
-	"216.160.83.56",       // US, with subdivision
-	"1.128.0.0",           // ASN only
-	"2001:218::1",         // JP, IPv6
-	"2a02:d300::1",        // another IPv6 network
-	"10.9.8.7",            // not in the databases
-	"::ffff:81.2.69.160",  // IPv4-mapped forms
+	"81.2.69.160",        // GB in the MaxMind test databases
+	"89.160.20.128",      // SE
+	"216.160.83.56",      // US, with subdivision
+	"1.128.0.0",          // ASN only
+	"2001:218::1",        // JP, IPv6
+	"2a02:d300::1",       // another IPv6 network
+	"10.9.8.7",           // not in the databases
+	"::ffff:81.2.69.160", // IPv4-mapped forms
 	"::ffff:89.160.20.128",
 	"::ffff:216.160.83.56",
 	"::ffff:10.9.8.7",
